@@ -148,16 +148,33 @@ def _change_count(ctx, cls, file, col):
     if not isinstance(rv, ast.Tuple) or len(rv.elts) != 2 or not all(isinstance(e, ast.Name) for e in rv.elts):
         raise AnalysisError(f"{construct}: expected `return new_policy, n_changed`")
     pol_name, cnt_name = (e.id for e in rv.elts)
-    defs = [s for s in fn.body if isinstance(s, ast.Assign) and len(s.targets) == 1 and isinstance(s.targets[0], ast.Name) and s.targets[0].id == cnt_name]
-    if len(defs) != 1:
-        raise AnalysisError(f"{construct}: change count `{cnt_name}` is not defined by a single assignment")
+    # the statements after the one that binds the new policy are interpreted as a block (temporaries included)
+    pdefs = [k for k, s in enumerate(fn.body) if isinstance(s, ast.Assign) and len(s.targets) == 1 and isinstance(s.targets[0], ast.Name) and s.targets[0].id == pol_name]
+    if len(pdefs) != 1:
+        raise AnalysisError(f"{construct}: new policy `{pol_name}` is not defined by a single top-level assignment")
+    rest = fn.body[pdefs[0] + 1:]
+    # backward slice of the returned count: only the assignments it depends on
+    need = {cnt_name}
+    keep = []
+    for s_ in reversed(rest):
+        if isinstance(s_, ast.Return):
+            keep.append(s_)
+            need |= {n.id for n in ast.walk(s_) if isinstance(n, ast.Name)} - {pol_name}
+        elif isinstance(s_, ast.Assign) and {n.id for t_ in s_.targets for n in ast.walk(t_) if isinstance(n, ast.Name) and isinstance(n.ctx, ast.Store)} & need:
+            keep.append(s_)
+            need |= {n.id for n in ast.walk(s_.value) if isinstance(n, ast.Name)}
+    rest = list(reversed(keep))
+    defs = [s for s in rest if isinstance(s, ast.Assign) and any(isinstance(n, ast.Name) and n.id == cnt_name for t_ in s.targets for n in ast.walk(t_))] or [fn.body[pdefs[0]]]
     I = solver_interp(ctx, cls, "span")
     I.axes["NEWPOL"] = ("state", "adim")
     env = {"self": ("self",), pol_name: S("NEWPOL")}
     try:
-        t = I.ev(defs[0].value, env, Frame(owner, owner.module, fn))
+        r = I.block(rest, env, Frame(owner, owner.module, fn))
     except Unsupported as e:
         raise AnalysisError(f"{construct}: {e}") from e
+    if r is None or r[0] != "tuple" or len(r[1]) != 2:
+        raise AnalysisError(f"{construct}: expected `return new_policy, n_changed`")
+    t = r[1][1]
     ok = False
     why = f"change count term {brief(t, 200)}"
     reds = []
